@@ -381,6 +381,8 @@ class Contract:
         for n, f in self.requires(it, pre, a):
             if not n.startswith('assumed:'):      # named history assumptions are carried, not checked
                 st.oblige(f'{caller}#call:{self.name}.pre[{n}]', f, callee=self.name)
+            else:
+                st.assumptions_used.add(f'UNCHECKED PRECONDITION of {self.name.split(".")[-1]} assumed at a call site: {n[8:]}')
             st.assume(as_z3(f))
         pre_call = pre
         if self.yields:
@@ -515,6 +517,8 @@ def verify_function(repo, registry, models_factory, c, base_axioms, options=None
         it.entry_args = a
         for _n, f in c.requires(it, pre, a):
             st.assume(as_z3(f))
+            if _n.startswith('assumed:'):
+                st.assumptions_used.add(f'UNCHECKED PRECONDITION of {c.name.split(".")[-1]}: {_n[8:]}')
         # vacuity guard: the precondition must be satisfiable
         if not st.feasible():
             st.oblige_fail(f'{c.name}#precondition-satisfiable', 'precondition is contradictory')
